@@ -136,7 +136,9 @@ func c08Body(e *Env) {
 	}
 	var laterAttempts []*State // attempted states of failed commits whose header write was issued, since the last successful commit
 	firedAtBegin := 0
+	lastCommitEnd := 0 // op-log index at which the most recent commit attempt returned
 	r.OnCommitResult = func(rec *CommitRec, err error) {
+		defer func() { lastCommitEnd = len(d.Log) }()
 		firedIn := 0
 		hdrWritten := false
 		var firstSyncSeen bool
@@ -200,6 +202,17 @@ func c08Body(e *Env) {
 		if e.Failed() || r.F == nil || r.InTx() || d.FaultsPending() {
 			return
 		}
+		// A deferred error is only legitimate if a write/sync failed OUTSIDE of a
+		// commit since the last commit attempt ended (asynchronous write of a
+		// Flush whose transaction was rolled back): every commit attempt, failed
+		// or not, ends with a sync that resets the writer's error state.
+		deferredPlausible := false
+		for i := lastCommitEnd; i < len(d.Log); i++ {
+			op := &d.Log[i]
+			if op.Err && (op.Kind == simdisk.OpWrite || op.Kind == simdisk.OpSync) {
+				deferredPlausible = true
+			}
+		}
 		for attempt := 1; attempt <= 2; attempt++ {
 			var err error
 			var tx *txfile.Tx
@@ -215,6 +228,7 @@ func c08Body(e *Env) {
 				return
 			}
 			if err == nil {
+				lastCommitEnd = len(d.Log)
 				e.Probe("liveness_checked")
 				if attempt == 2 {
 					e.Probe("liveness_second_attempt")
@@ -222,6 +236,11 @@ func c08Body(e *Env) {
 				laterAttempts = nil
 				r.Cur().TxID = txfile.VerifHeaderSnapshot(r.F).TxID
 				r.VerifyAll(when + ": after liveness transaction")
+				return
+			}
+			lastCommitEnd = len(d.Log)
+			if attempt == 1 && !deferredPlausible {
+				e.Fail("C08", "not-live", "%s: all faults stopped and no asynchronous write error is outstanding, but an empty write transaction failed to commit: %v", when, err)
 				return
 			}
 			if attempt == 2 {
